@@ -322,6 +322,25 @@ def same(x, y, label, goals, seen=None):
         for i, (a, b) in enumerate(zip(x, y)):
             same(a, b, f'{label}[{i}]', goals, seen)
         return
+    from .interp import SeqVal
+    if isinstance(x, SeqVal) and isinstance(y, SeqVal):
+        goals.add(label + ':count', sym.eq(x.n, y.n))
+        if sym.have_ctx():
+            c = sym.ctx()
+            if sym.truth(sym.land(x.n > 0, sym.eq(x.n, y.n))):
+                # a fresh index in range exists (n > 0 on this path), so assuming it does not weaken any other goal
+                k = SInt(c.fresh_int('sq'))
+                sym.note_index(k)
+                c.assume(sym.land(k >= 0, k < x.n))
+                same(x.item(k), y.item(k), label + ':item', goals, seen)
+        else:
+            n = min(int(x.n), int(y.n))
+            for j in range(n):
+                same(x.item(j), y.item(j), f'{label}:item', goals, seen)
+        return
+    if isinstance(x, SeqVal) or isinstance(y, SeqVal):
+        goals.add(label + ':sequence-shape', False)
+        return
     if isinstance(x, GenObj) or isinstance(y, GenObj):
         goals.add(label + ':generator-compare-unsupported', None)
         return
